@@ -205,8 +205,12 @@ def check_spectrum(case, ctx):
     except Exception as e:
         ctx.violation('spectrum:eq_probs_raises:%s' % type(e).__name__, case, repr(e))
     # synthetic_ensemble == repeated multiplication
-    for p0 in case.get('p0s', []):
-        p0 = np.array(p0, float)
+    p0list = [np.array(p, float) for p in case.get('p0s', [])]
+    if p0list:
+        ind = np.zeros(n, dtype=np.int64)
+        ind[n - 1] = 1
+        p0list += [ind, ind.astype(np.float32), (np.arange(n) + 1).astype(np.int32)]   # indicator / walker counts
+    for p0 in p0list:
         for steps in (1, 2, 5):
             ctx.ev()
             keep = p0.copy()
@@ -215,8 +219,8 @@ def check_spectrum(case, ctx):
             except Exception as e:
                 ctx.violation('ensemble:raises:%s' % type(e).__name__, case, repr(e))
                 break
-            wantobs = np.array([p0 @ np.linalg.matrix_power(T, k) for k in range(steps)])
-            if obs.shape != wantobs.shape or np.abs(obs - wantobs).max() > 1e-12 or np.abs(pf - wantobs[-1]).max() > 1e-12:
+            wantobs = np.array([p0.astype(float) @ np.linalg.matrix_power(T, k) for k in range(steps)])
+            if obs.shape != wantobs.shape or np.abs(np.asarray(obs, float) - wantobs).max() > 1e-6 * (1 if p0.dtype == np.float32 else 1e-6) or np.abs(pf - wantobs[-1]).max() > 1e-6 * (1 if p0.dtype == np.float32 else 1e-6):
                 ctx.violation('ensemble:value', case, 'steps=%d obs=%r want %r' % (steps, obs.tolist(), wantobs.tolist()))
                 break
             if not np.array_equal(keep, p0):
@@ -229,17 +233,41 @@ def check_spectrum(case, ctx):
 
 
 def big_chain(n, stay, skew):
-    """lazy random walk on a bipartite circulant graph: node i <-> i +- (2^m - 1) mod n, m = 1..6 (n even).
-    Symmetric, hence reversible with a real, well-conditioned and well-separated spectrum: 1, then a gap, and -(1-2*stay)
-    at the other end (the walk is nearly periodic for small `stay`).  `skew` is kept for the case format only."""
-    T = np.zeros((n, n))
+    """lazy random walk on a weighted bipartite circulant graph: node i <-> i +- (2^m - 1) mod n, m = 1..6 (n even),
+    edge weight 1 + ((i + j) % 3).  Reversible with respect to pi ~ weighted degree (NOT uniform, so left and right
+    eigenvectors differ), real well-conditioned spectrum: 1, a gap, and about -(1-2*stay) at the other end (nearly
+    periodic for small `stay`).  `skew` is kept for the case format only."""
+    W = np.zeros((n, n))
     offs = [2 ** m - 1 for m in range(1, 7)]
     for i in range(n):
-        T[i, i] += stay
         for o in offs:
             for sgn in (1, -1):
-                T[i, (i + sgn * o) % n] += (1 - stay) / (2 * len(offs))
-    return T
+                j = (i + sgn * o) % n
+                W[i, j] = 1 + ((i + j) % 3)
+    d = W.sum(axis=1)
+    return stay * np.eye(n) + (1 - stay) * W / d[:, None]
+
+
+def big_chain_reference(T):
+    """eigenvalues (descending) and stationary vector through the symmetrised form D^1/2 T D^-1/2 (LAPACK eigh)"""
+    n = len(T)
+    # stationary vector from detailed balance along a spanning structure: pi ~ weighted degree = 1 / diag scaling
+    # recover d_i up to scale from T: for an edge (i,j): pi_i T_ij = pi_j T_ji
+    pi = np.ones(n)
+    seen = {0}
+    stack = [0]
+    while stack:
+        i = stack.pop()
+        for j in np.nonzero(T[i])[0]:
+            if j not in seen and j != i:
+                pi[j] = pi[i] * T[i, j] / T[j, i]
+                seen.add(int(j))
+                stack.append(int(j))
+    pi /= pi.sum()
+    s = np.sqrt(pi)
+    S = (s[:, None] * T) / s[None, :]
+    w = np.linalg.eigvalsh((S + S.T) / 2)
+    return np.sort(w)[::-1], pi
 
 
 def check_arpack(case, ctx):
@@ -249,9 +277,9 @@ def check_arpack(case, ctx):
     T = big_chain(n, stay, skew)
     ctx.ev()
     ctx.guard('arpack_branch')
-    ref = np.linalg.eigvals(T)
-    want = np.sort(ref.real)[::-1][:k]
-    ctx.state(('arpack', n, stay, skew, k), nontrivial=bool((ref.real < -0.5).any()))
+    ref, pi_ref = big_chain_reference(T)
+    want = ref[:k]
+    ctx.state(('arpack', n, stay, skew, k), nontrivial=bool((ref < -0.5).any()))
     try:
         vals, vecs = eigenspectrum(sp.csr_matrix(T), n_eigs=k)
     except Exception as e:
@@ -264,8 +292,19 @@ def check_arpack(case, ctx):
         ctx.violation('arpack:not_the_largest_eigenvalues', case,
                       'returned %r, the %d largest (by real part) are %r (%r)' % (vals.tolist(), k, want.tolist(), case))
     v0 = np.asarray(vecs)[:, 0]
-    if v0.min() < -1e-9 or abs(v0.sum() - 1) > 1e-8 or np.abs(v0 @ T - v0).max() > 1e-8:
-        ctx.violation('arpack:first_vector_not_stationary', case, 'residual %g' % np.abs(v0 @ T - v0).max())
+    if v0.min() < -1e-9 or abs(v0.sum() - 1) > 1e-8 or np.abs(v0 @ T - v0).max() > 1e-8 or np.abs(v0 - pi_ref).max() > 1e-8:
+        ctx.violation('arpack:first_vector_not_stationary', case, 'residual %g, distance to the stationary vector %g' % (
+            np.abs(v0 @ T - v0).max(), np.abs(v0 - pi_ref).max()))
+    # the builders use the same path for populations
+    try:
+        from enspara.msm import builders
+        Cbig = sp.csr_matrix(np.round(T * 1000))
+        _, Tn, pn = builders.normalize(Cbig)
+        Td = Tn.toarray()
+        if np.abs(pn @ Td - pn).max() > 1e-8 or abs(pn.sum() - 1) > 1e-8 or pn.min() < -1e-9:
+            ctx.violation('arpack:normalize_populations_not_stationary', case, 'residual %g' % np.abs(pn @ Td - pn).max())
+    except Exception as e:
+        ctx.violation('arpack:normalize_raises:%s' % type(e).__name__, case, repr(e))
 
 
 def check_imp(case, ctx):
@@ -281,8 +320,22 @@ def check_imp(case, ctx):
     n_states = max(max(t) for t in trajs) + 1
     if n_states < 2:
         return
+    if case.get('trim'):
+        # with trimming the model can have fewer states than eigenvalues requested at some lag; the formula is then
+        # undefined for the missing ones (precondition decided by the function pipeline, not by the implementation)
+        from enspara.msm.transition_matrices import trim_disconnected
+        sizes = []
+        for lag in lags:
+            try:
+                Cc = assigns_to_counts(a, lag_time=lag, max_n_states=n_states, sliding_window=case['sliding'])
+                sizes.append(trim_disconnected(Cc)[1].shape[0])
+            except Exception:
+                sizes.append(0)
+        if min(sizes) < n_states:
+            ctx.guard('imp_trim_fewer_states')
+            return
     try:
-        it = implied_timescales(a, lags, builder, n_times=n_states - 1, sliding_window=case['sliding'])
+        it = implied_timescales(a, lags, builder, n_times=n_states - 1, sliding_window=case['sliding'], trim=case.get('trim', False))
     except Exception as e:
         # the pipeline itself may legitimately fail (e.g. no counts); must then fail the same way by hand
         try:
@@ -300,6 +353,9 @@ def check_imp(case, ctx):
         return
     for row, lag in zip(it, lags):
         C = assigns_to_counts(a, lag_time=lag, max_n_states=n_states, sliding_window=case['sliding'])
+        if case.get('trim'):
+            from enspara.msm.transition_matrices import trim_disconnected
+            _, C = trim_disconnected(C)
         _, T, _ = builder(C)
         ref = np.linalg.eigvals(dense(T).astype(float))
         ref = ref[np.argsort(-ref.real)][1:]
@@ -341,6 +397,23 @@ def run_shard(sh, ctx):
                 check_imp({'kind': 'imp', 'trajs': trajs, 'lags': [2], 'builder': 'transpose', 'sliding': False}, ctx)
             if j % 997 == 0:
                 ctx.sample(case)
+        # two-island assignment sets (every state has in- and out-transitions, yet the graph is not strongly connected)
+        from .c11 import island_sets
+        isl = island_sets()
+        for j in range(i, len(isl), NSH[tier]):
+            for lag in (1, 2):
+                for bname in ('normalize', 'transpose'):
+                    for sliding in (True, False):
+                        check_fit({'kind': 'fit', 'trajs': isl[j], 'lag': lag, 'builder': bname, 'trim': True, 'sliding': sliding,
+                                   'mns': None, 'roundtrip': False}, ctx)
+        # implied timescales on longer trajectories (so that strided and sliding counts differ at lag 2, 3)
+        longs = [((0, 1, 1, 2, 0, 1, 2, 2, 0), (2, 1, 0, 0, 1, 2, 1)), ((0, 0, 1, 2, 1, 0, 2, 1), (1, 2, 0, 1, 0, 2)),
+                 ((0, 1, 0, 2, 2, 1, 0, 1, 2, 0),), ((2, 2, 1, 0, 1, 1, 2, 0, 0, 1), (0, 2, 1))]
+        for j in range(i, len(longs) * 8, NSH[tier]):
+            trajs = longs[j % len(longs)]
+            v = j // len(longs)
+            check_imp({'kind': 'imp', 'trajs': trajs, 'lags': [1, 2, 3], 'builder': ('normalize', 'transpose')[v % 2],
+                       'sliding': bool((v // 2) % 2), 'trim': bool((v // 4) % 2)}, ctx)
     elif kind == 'arpack':
         # reversible walks only: for skewed (highly non-normal) walks of this size the eigenvalues themselves are
         # ill-conditioned (dense LAPACK on T and on T.T disagree in the 3rd digit), so no oracle exists
